@@ -135,7 +135,7 @@ Proof.
     destruct (w_read_field_lf p' R dst1 Hp') as [dst2 [n2 [eol [s2 [F1 [F2 Hs2]]]]]]. rewrite F1, F2.
     destruct Hs2 as [[He Hs2]|[He [p2 [Hs2 Hp2]]]]; subst eol s2.
     + do 3 eexists. split; reflexivity.
-    + rewrite <- app_assoc. cbn [app].
+    + rewrite <- app_assoc. cbn [app]. unfold w_tab_tail.
       rewrite (take_line_lf p2 R Hp2). rewrite (take_line_lf p2 [] Hp2).
       replace (p2 ++ 10%N :: R) with ((p2 ++ [10%N]) ++ R) by (rewrite <- app_assoc; reflexivity).
       rewrite skipn_len_app.
